@@ -6,6 +6,7 @@ mod lowgen;
 mod iterfam;
 mod compfam;
 mod rtfam;
+mod parsefam;
 
 fn main() {
     common::install_panic_hook();
@@ -21,6 +22,7 @@ fn main() {
         "iter" => iterfam::main(&args[2..]),
         "comp" => compfam::main(&args[2..]),
         "rt" => rtfam::main(&args[2..]),
+        "parse" => parsefam::main(&args[2..]),
         f => {
             eprintln!("unknown family {}", f);
             std::process::exit(2);
